@@ -944,7 +944,7 @@ Lemma walk_all_loop_S : forall f net start jump nd visited d,
           if Qlt_bool (v_cost v) d then
             walk_all_loop f net start jump nx (zset_insert nd visited) (Qred (d - v_cost v)%Q)
           else [stop_cell v d jump]
-        end) cands
+        end) (nodup Z.eq_dec cands)
     end
   else [Err InvalidArgument].
 Proof. reflexivity. Qed.
@@ -993,7 +993,7 @@ Proof.
   destruct cands as [|c0 ct]; [intros _; left; reflexivity|].
   destruct (choose_cases _ (@Err (node * tape) UB_OutOfBounds) (c0 :: ct) tp) as [[nx [tp' [Hc Hin]]] | Hc];
     [discriminate | | rewrite Hc; intro H; exfalso; apply H; reflexivity].
-  rewrite Hc. intro Hne. apply in_flat_map. exists nx. split; [exact Hin|]. revert Hne.
+  rewrite Hc. intro Hne. apply in_flat_map. exists nx. split; [apply nodup_In; exact Hin|]. revert Hne.
   destruct (nx =? nd); [intros _; left; reflexivity|].
   destruct (get_segment net nd nx) as [v|e]; cbn [bind]; [|intros _; left; reflexivity].
   destruct (Qlt_bool (v_cost v) d).
@@ -1014,7 +1014,7 @@ Proof.
     2:{ intros [<- | []]. exists []. rewrite walk_loop_S, Ed. unfold next_node. rewrite Ec. reflexivity. }
     destruct cands as [|c0 ct].
     { intros [<- | []]. exists []. rewrite walk_loop_S, Ed. unfold next_node. rewrite Ec. reflexivity. }
-    intro Hin. apply in_flat_map in Hin. destruct Hin as [nx [Hnx Hr]].
+    intro Hin. apply in_flat_map in Hin. destruct Hin as [nx [Hnx Hr]]. apply nodup_In in Hnx.
     assert (Hstep : forall tp', exists tp, next_node net nd visited tp = Ok (nx, tp')).
     { intro tp'. unfold next_node. rewrite Ec. cbn [bind]. apply choose_realise. exact Hnx. }
     destruct (nx =? nd) eqn:Enx.
